@@ -1112,6 +1112,129 @@ def generate(outpath=None, flags=()):
     return {"changed": old != text, "path": outpath, "failed": failed, "functions": [f for f in FUNCS if f not in failed and "all" not in failed]}
 
 
+# ------------------------------------------------------------------------------------------------------------------------
+# constants of the formatters read off the AST (fallback of translate/extract.py when its text patterns do not match)
+
+def _unwrap(n):
+    while n.get("kind") in ("ParenExpr", "ImplicitCastExpr", "CStyleCastExpr", "ConstantExpr"):
+        n = n["inner"][0]
+    return n
+
+
+def _const(n):
+    n = _unwrap(n)
+    k = n.get("kind")
+    if k in ("IntegerLiteral", "CharacterLiteral"):
+        return int(n["value"])
+    if k == "UnaryOperator" and n.get("opcode") in ("-", "+") :
+        v = _const(n["inner"][0])
+        return None if v is None else (-v if n["opcode"] == "-" else v)
+    return None
+
+
+def _divisor_table(fn):
+    """initial divisors (d2, d8, d10, d16) of a formatter: the constants assigned to one variable under `case k:` / `default:` of a
+    switch on the base parameter or under `base == k` / the final else of an if-chain.  None when the shape is not recognised."""
+    params = [c for c in fn["inner"] if c.get("kind") == "ParmVarDecl"]
+    body = [c for c in fn["inner"] if c.get("kind") == "CompoundStmt"]
+    if len(params) < 4 or not body:
+        return None
+    base = params[3].get("name")
+    found = {}      # variable -> {guard: constant}
+
+    def is_base(n):
+        n = _unwrap(n)
+        return n.get("kind") == "DeclRefExpr" and n["referencedDecl"].get("name") == base
+
+    def record(stmt, guards):
+        for x in walk(stmt):
+            if x.get("kind") == "BinaryOperator" and x.get("opcode") == "=":
+                lhs = _unwrap(x["inner"][0])
+                v = _const(x["inner"][1])
+                if lhs.get("kind") == "DeclRefExpr" and v is not None and lhs["referencedDecl"].get("name") != base:
+                    for g in guards:
+                        found.setdefault(lhs["referencedDecl"]["name"], {}).setdefault(g, v)
+
+    def visit(n, guard):
+        k = n.get("kind")
+        if k == "IfStmt":
+            c = _unwrap(n["inner"][0])
+            g = None
+            if c.get("kind") == "BinaryOperator" and c.get("opcode") == "==":
+                a, b = c["inner"]
+                if is_base(a) and _const(b) is not None: g = _const(b)
+                elif is_base(b) and _const(a) is not None: g = _const(a)
+            if g is not None:
+                visit(n["inner"][1], g)
+                if len(n["inner"]) > 2:
+                    visit(n["inner"][2], "default")
+                return
+        if k == "SwitchStmt" and is_base(n["inner"][0]) and n["inner"][-1].get("kind") == "CompoundStmt":
+            active = []
+            for it in n["inner"][-1].get("inner", []):
+                while it.get("kind") in ("CaseStmt", "DefaultStmt"):
+                    active.append(_const(it["inner"][0]) if it["kind"] == "CaseStmt" else "default")
+                    it = it["inner"][-1]
+                if it.get("kind") == "BreakStmt":
+                    active = []
+                else:
+                    record(it, [a for a in active if a is not None])
+            return
+        if k in ("BinaryOperator",) and n.get("opcode") == "=" and guard is not None:
+            record(n, [guard])
+            return
+        for c in n.get("inner", []):
+            if isinstance(c, dict) and c.get("kind"):
+                visit(c, guard)
+
+    visit(body[0], None)
+    for var, m in found.items():
+        d10 = m.get(10, m.get("default"))
+        r = (m.get(2, d10), m.get(8, d10), d10, m.get(16, d10))
+        if all(isinstance(x, int) and x > 0 for x in r) and (2 in m or 8 in m or 16 in m):
+            return r
+    return None
+
+
+def _digit_alphabet(ft, fn):
+    """text of the constant character array (function or file scope, string literal initialiser) that the function indexes"""
+    local = {x.get("id"): x for x in walk(fn) if x.get("kind") == "VarDecl"}
+    for x in walk(fn):
+        if x.get("kind") != "ArraySubscriptExpr":
+            continue
+        b = _unwrap(x["inner"][0])
+        if b.get("kind") != "DeclRefExpr":
+            continue
+        rd = b["referencedDecl"]
+        d = local.get(rd.get("id")) or (ft.globals.get(rd.get("name")) if ft.globals.get(rd.get("name"), {}).get("id") == rd.get("id") else None)
+        if d is None or not re.fullmatch(r"const char\s*\[\d+\]", d.get("type", {}).get("qualType", "")):
+            continue
+        init = [c for c in d.get("inner", []) if c.get("kind") == "StringLiteral"]
+        if init:
+            try:
+                v = json.loads(init[0]["value"])
+            except Exception:
+                continue
+            if isinstance(v, str):
+                return v
+    return None
+
+
+def extract_tables(names=("UInt32ToStrBaseSign", "UInt64ToStrBaseSign"), flags=()):
+    """{function: {"div": (d2, d8, d10, d16) | None, "digits": str | None}} from clang's AST of utils.c (raises Unsupported
+    when clang cannot parse the file)"""
+    path = os.path.join(REPO, "libscpi", "src", "utils.c")
+    ast = clang_ast(path, flags)
+    with open(path, encoding="latin-1") as f:
+        ft = FileTr(ast, f.read())
+    decls = {fn["name"]: fn for fn in ft.function_decls()}
+    res = {}
+    for nm in names:
+        fn = decls.get(nm)
+        res[nm] = {"div": _divisor_table(fn) if fn else None, "digits": _digit_alphabet(ft, fn) if fn else None}
+    return res
+
+
 if __name__ == "__main__":
     if "--stdout" in sys.argv:
         t, failed = translate_file(os.path.join(REPO, "libscpi", "src", "utils.c"), FUNCS)
